@@ -6,6 +6,7 @@ on the property being checked — the ORACLE's verdict on the IMPLEMENTATION's r
 -/
 import PkgsrcVerif.Driver.Proto
 import PkgsrcVerif.Model.Pattern
+import PkgsrcVerif.Model.DeweyIdx
 import PkgsrcVerif.Spec.Dewey
 import PkgsrcVerif.Spec.DeweyPat
 import PkgsrcVerif.Spec.Brace
@@ -129,7 +130,17 @@ def model (op : String) (args : List (List UInt8)) : Option String := do
   let strs := args.map bytesToStr?
   let a (i : Nat) : Option Str := (strs[i]?).join
   match op with
-  | "dewey.comps" => let s ← a 0; pure (showDV (deweyVersion s))
+  | "dewey.comps" =>
+    -- evaluated through the BYTE-INDEXED model (C17_dewey_tokeniser_index_safe proves it equal to
+    -- `deweyVersion`); the UTF-8 length/encoding model it rests on is checked against the bytes
+    -- the implementation actually received
+    let s ← a 0
+    let raw := (args[0]?).getD []
+    if encode s != raw.map (·.toNat) || bytesLen s != raw.length then pure "UTF8-MODEL-MISMATCH"
+    else
+      match tokensIdx s (bytesLen s + 1) 0 with
+      | none => pure "PANIC"
+      | some ts => pure (showDV { version := ts.flatMap Tok.comps, rev := lastRev ts 0 })
   | "dewey.rawcmp" =>
     let l ← (← a 0) |> String.ofList |> parseParts
     let r ← (← a 1) |> String.ofList |> parseParts
